@@ -150,7 +150,7 @@ initSetIteration(SetIteration *i, PyObject *s, int useValues)
   i->position = -1;     /* set to 0 only on normal return */
   i->usesValue = 0;     /* assume it's a set or that values aren't iterated */
 
-  if (PyObject_IsInstance(s, (PyObject *)&BucketType))
+  if (PyObject_TypeCheck(s, (PyTypeObject *)&BucketType))
     {
       i->set = s;
       Py_INCREF(s);
@@ -163,13 +163,13 @@ initSetIteration(SetIteration *i, PyObject *s, int useValues)
       else
         i->next = nextSet;
     }
-  else if (PyObject_IsInstance(s, (PyObject *)&SetType))
+  else if (PyObject_TypeCheck(s, (PyTypeObject *)&SetType))
     {
       i->set = s;
       Py_INCREF(s);
       i->next = nextSet;
     }
-  else if (PyObject_IsInstance(s, (PyObject *)&BTreeType))
+  else if (PyObject_TypeCheck(s, (PyTypeObject *)&BTreeType))
     {
       i->set = BTree_rangeSearch(BTREE(s), NULL, NULL, 'i');
       UNLESS(i->set) return -1;
@@ -182,7 +182,7 @@ initSetIteration(SetIteration *i, PyObject *s, int useValues)
       else
         i->next = nextTreeSetItems;
     }
-  else if (PyObject_IsInstance(s, (PyObject *)&TreeSetType))
+  else if (PyObject_TypeCheck(s, (PyTypeObject *)&TreeSetType))
     {
       i->set = BTree_rangeSearch(BTREE(s), NULL, NULL, 'k');
       UNLESS(i->set) return -1;
